@@ -428,6 +428,24 @@ def check_analytic_numerical(alt, sigma_surface, os_=8):
     dev = float(np.abs(ana - num).max() / num.max())
     if not dev <= 0.07:
         return ("analytic-vs-numerical:" + alt.split(":")[0], dev, "<= 7 % of the peak")
+    # the package's own numerical counterpart (numerical_convolution=True) over the same window: same echo energy (the unchanged package
+    # stays within 0.5 % for every predefined altimeter and surface roughness)
+    own = np.asarray(Brown1977(sensor, numerical_convolution=True).PFS_PTR_PDF(tau.copy(), sigma_surface=sigma_surface), dtype=float)[:n]
+    ratio = float(own.sum() / ana.sum())
+    if not abs(ratio - 1) <= 0.015:
+        return ("analytic-vs-own-numerical:" + alt.split(":")[0], ratio, "energy ratio numerical / analytic = 1 within 1.5 %")
+    return None
+
+
+def check_tis_convergence(case, tis_list=(2, 4, 8), ref=32):
+    """the echo energy converges as the incidence sampling is refined: every sampling of the list gives the energy of the finest one (the
+    unchanged package: within 0.1 % from theta_inc_sampling = 2 on, rough interfaces everywhere)"""
+    E = {t: float(_waveform_of(case, dict(oversampling=4, theta_inc_sampling=t)).sum()) for t in list(tis_list) + [ref]}
+    worst = max(tis_list, key=lambda t: abs(E[t] / E[ref] - 1))
+    dev = abs(E[worst] / E[ref] - 1)
+    if not dev <= 0.01:
+        return ("convergence:theta_inc_sampling", f"{len(case['thickness'])} layers under geometrical-optics interfaces: the echo energy at theta_inc_sampling = "
+                f"{worst} is {E[worst] / E[ref]:.3f} of the one at {ref}", dev, "<= 1 %")
     return None
 
 
@@ -492,6 +510,14 @@ def oracle(ctx, hints, effort):
     if r:
         extra.append(Finding(r[0], f"simulated after another altimeter of the same band, bandwidth and gate count, the waveform differs by {r[1]:.3g} of "
                              f"the peak from the one obtained in a fresh process", {"check": "sequence"}, r[1], r[2]))
+    for nl in ((2, 4) if effort == "routine" else (1, 2, 3, 4, 5, 6)):
+        evals += 4
+        case = rand_case(rng, alt=["envisat_ra2:Ku", "cryosat2_lrm"][nl % 2] if "cryosat2_lrm" in ALTIMETERS else "envisat_ra2:Ku", nl=nl)
+        ms = round(float(rng.uniform(0.01, 0.05)), 3)
+        case.update(emmodel="iba", interfaces=["go:%.3f" % ms] * nl, substrate="go:%.3f" % ms, sigma_surface=None, thickness=[0.5] * nl)
+        r = check_tis_convergence(case)
+        if r and not any(f.key == r[0] for f in extra):
+            extra.append(Finding(r[0], r[1], {"check": "tis-convergence", "case": case}, r[2], r[3]))
     for alt in ALTIMETERS:
         for sig in ([0.0, 0.3, 1.0] if effort == "routine" else [0.0, 0.05, 0.15, 0.3, 0.5, 0.75, 1.0]):
             evals += 1
@@ -515,7 +541,12 @@ def replay(inp, rp=None):
         return Finding(r[0], "waveform depends on what was simulated before", inp, r[1], r[2]) if r else None
     if inp.get("check") == "analytic":
         r = check_analytic_numerical(inp["alt"], inp["sigma_surface"])
+        if r and r[0].startswith("analytic-vs-own"):
+            return Finding(r[0], "energy of the package's numerical convolution / analytic form", inp, r[1], r[2])
         return Finding(r[0], "analytic PFS*PTR*PDF differs from the numerical convolution", inp, r[1], r[2]) if r else None
+    if inp.get("check") == "tis-convergence":
+        r = check_tis_convergence(inp["case"])
+        return Finding(r[0], r[1], inp, r[2], r[3]) if r else None
     case, o = inp["case"], inp["opts"]
     if inp.get("check") == "beer":
         b = check_beer_lambert(case, o["oversampling"])
